@@ -422,10 +422,11 @@ def _get_comp_cls_media(comp_cls: Type["Component"]) -> Any:
         if curr_cls in media_cache:
             continue
 
-        # Same as in `_get_comp_cls_attr()`, the (relative) paths in `Media` are resolved before they are used
+        # Same as in `_resolve_media()`, the (relative) paths in `Media` are resolved before they are used.
+        # NOTE: Only the paths are resolved here, the template / JS / CSS files are NOT loaded.
         comp_media: Optional[ComponentMedia] = getattr(curr_cls, "_component_media", None)
         if comp_media is not None and not comp_media.resolved:
-            _resolve_media(curr_cls, comp_media)
+            _resolve_component_relative_files(curr_cls, comp_media, comp_dirs=get_component_dirs())
 
         # Prepare base classes
         # NOTE: Only the `Media` that is defined on THIS class, not the one inherited from a parent class
